@@ -64,18 +64,18 @@ func tomlLeaves(c *Ctx) map[*types.Var]string {
 var fieldSources = map[string][]string{
 	"Key.Note": {"mapping.keys.map"}, "Key.ChannelOffset": {"mapping.keys.map"},
 	"Analog.MappingType": {"mapping.analog.map.type"},
-	"Analog.CC": {"mapping.analog.map.cc"}, "Analog.CCNeg": {"mapping.analog.map.cc_negative"},
+	"Analog.CC":          {"mapping.analog.map.cc"}, "Analog.CCNeg": {"mapping.analog.map.cc_negative"},
 	"Analog.Note": {"mapping.analog.map.note"}, "Analog.NoteNeg": {"mapping.analog.map.note_negative"},
 	"Analog.ChannelOffset": {"mapping.analog.map.channel_offset"}, "Analog.ChannelOffsetNeg": {"mapping.analog.map.channel_offset_negative"},
 	"Analog.Action": {"mapping.analog.map.action"}, "Analog.ActionNeg": {"mapping.analog.map.action_negative"},
 	"Analog.FlipAxis": {"mapping.analog.map.flip_axis"}, "Analog.DeadzoneAtCenter": {"mapping.analog.map.deadzone_at_center"},
 	"Analog.Bidirectional": {"mapping.analog.map.cc_negative", "mapping.analog.map.note_negative", "mapping.analog.map.action_negative"},
-	"Defaults.Octave": {"defaults.octave"}, "Defaults.Semitone": {"defaults.semitone"}, "Defaults.Channel": {"defaults.channel"},
+	"Defaults.Octave":      {"defaults.octave"}, "Defaults.Semitone": {"defaults.semitone"}, "Defaults.Channel": {"defaults.channel"},
 	"Defaults.Velocity": {"defaults.velocity"}, "Defaults.Mapping": {"defaults.mapping", "mapping.name"},
 	"Colors.White": {"open_rgb.white"}, "Colors.Black": {"open_rgb.black"}, "Colors.C": {"open_rgb.c"},
 	"Colors.Unavailable": {"open_rgb.unavailable"}, "Colors.Other": {"open_rgb.other"}, "Colors.Active": {"open_rgb.active"},
 	"Colors.ActiveExternal": {"open_rgb.active_external"},
-	"InputID.Bus": {"identifier.bus"}, "InputID.Vendor": {"identifier.vendor"}, "InputID.Product": {"identifier.product"}, "InputID.Version": {"identifier.version"},
+	"InputID.Bus":           {"identifier.bus"}, "InputID.Vendor": {"identifier.vendor"}, "InputID.Product": {"identifier.product"}, "InputID.Version": {"identifier.version"},
 	"Config.Uniq": {"identifier.uniq"}, "Config.CollisionMode": {"collision_mode"}, "Config.ExitSequence": {"exit_sequence"},
 	"KeyMapping.Name": {"mapping.name"},
 }
@@ -103,6 +103,7 @@ func checkC10(c *Ctx) {
 	ruleErrorsReturnedAs(c, pf.regionFuncs(), "R10.7", nil)
 	c.MinCount("R10.7", 8)
 	ruleEvCodeProvenance(c, pf)
+	c.importRules(checkC11, []string{"R11.1", "R11.2", "R11.3", "R11.4"}, "R10.9") // a note given by name is accepted iff it is one of the 128 names, and means that note
 	c.MinCount("R10.8", 2)
 	c.MinCount("R10.1", 30)
 	c.MinCount("R10.1b", 5)
@@ -551,7 +552,7 @@ func ruleBounds(c *Ctx, pf *parserFacts) {
 		pos := c.P.Pos(fs.Store.Pos())
 		vw := pf.view(fs.Store.Parent())
 		t := vw.Term(fs.Val)
-		b := boundsOf(vw.GuardsAt(fs.Store.Block()), t.String())
+		b := vw.BoundsAt(fs.Store.Block(), t.String(), bound{})
 		phi, isPhi := throughCtor(c.P, fs.Val).(*ssa.Phi) // also a search extracted into a helper with a single return
 		okEdges := isPhi
 		if isPhi {
@@ -565,10 +566,26 @@ func ruleBounds(c *Ctx, pf *parserFacts) {
 				if e == ssa.Value(phi) {
 					continue // loop-carried value of the search variable itself
 				}
+				if bo, isBO := e.(*ssa.BinOp); isBO {
+					k, isK := bo.Y.(*ssa.Const)
+					if isK && bo.X == ssa.Value(phi) && (bo.Op == token.SUB || bo.Op == token.ADD) {
+						continue // the search variable stepping through the list
+					}
+					if isK && bo.Op == token.SUB && k.Int64() == 1 {
+						if call, isCall := bo.X.(*ssa.Call); isCall {
+							if bi, isB := call.Call.Value.(*ssa.Builtin); isB && bi.Name() == "len" {
+								continue // starts at the last element
+							}
+						}
+					}
+				}
 				if !nonNegativeIndex(e) {
 					okEdges = false
 				}
 			}
+		}
+		if okEdges && !b.excluded[-1] && b.hasLo && b.lo >= 0 {
+			b.excluded[-1] = true // "not found" expressed as `index < 0`
 		}
 		if okEdges && b.excluded[-1] {
 			c.OK("R10.2", key, pos, "-1 (not found) is rejected by a dominating check; other values are range indices of the mapping list")
